@@ -486,11 +486,11 @@ class WallBudget(Exception):
 class WallGuard:
     """Last-resort bound on one execution: the REAL interval timer (the product only sees FakeSignal, so SIGALRM
     is free for the harness).  A capped execution is discarded by the engines (``run.wall_capped``), never judged:
-    bounded runs only.  The budget is generous (default 240 s, typical executions take < 5 s), so it does not
+    bounded runs only.  The budget is generous (default 120 s, typical executions take < 5 s; a case holds at most 8 executions and the per-case watchdog is 20 min), so it does not
     interfere with determinism except for inputs that would otherwise hang the batch."""
     def __init__(self, run):
         self.run = run
-        self.budget = float(os.environ.get('VERIF_EXEC_WALL_S', '240'))
+        self.budget = float(os.environ.get('VERIF_EXEC_WALL_S', '120'))
 
     def __enter__(self):
         import signal as real_signal
